@@ -69,6 +69,7 @@ func C19(c *Ctx) {
 	c.c19RawInsert()
 	r.Rule("R19.7", "the per-account store follows its nonce index: wherever transactions are taken out of an account's nonce index (index.removeBySortedNonceKey) they also leave that account's items map - the set handed to the removal is the result of forward() (which deletes from items as it collects), also through parameters of helpers / closures, or the same function deletes them from items. An entry left in items is found again when the same transaction is re-admitted and is taken for a superseded one.")
 	c.c19ItemsFollowIndex()
+	c.c19HandedOver()
 	r.NotDecided = append(r.NotDecided, "liveness ('included in one of the next batches'); side maps that are not indices (allTxs[account].items after an eviction, seed C19-r9); drift of the counter over histories; goroutine confinement of the pool (see C20 R20.5)")
 
 	ra := c.fn("R19.1", mpPrefix+"RemoveAliveTimeoutTxs")
